@@ -315,17 +315,28 @@ func shiftQuant(body, q, j string) (string, []string, bool) {
 	}
 	off := ""
 	pats := map[string]bool{}
+	bare := map[string]bool{}
 	ok := true
 	var walk func(n *sx) *sx
 	walk = func(n *sx) *sx {
 		if n.kids == nil {
 			return n
 		}
+		// bottom-up: inner reads are rewritten first, so a read nested in another read's index is no obstacle
+		out := &sx{}
+		for _, k := range n.kids {
+			out.kids = append(out.kids, walk(k))
+		}
+		n = out
+		if len(n.kids) == 3 && n.kids[0].atom == "select" && n.kids[2].kids == nil && n.kids[2].atom == q && !mentions(n.kids[1]) {
+			// a read at the bare variable: a pattern as it stands
+			bare[n.String()] = true
+			return n
+		}
 		if len(n.kids) == 3 && n.kids[0].atom == "select" && mentions(n.kids[2]) {
 			idx := n.kids[2]
 			if mentions(n.kids[1]) || idx.kids == nil || len(idx.kids) != 3 || idx.kids[0].atom != "+" || idx.kids[2].atom != q || idx.kids[2].kids != nil || mentions(idx.kids[1]) {
-				ok = false
-				return n
+				return n // some other use of the variable: left in terms of q (substituted below)
 			}
 			o := idx.kids[1].String()
 			if off == "" {
@@ -338,13 +349,32 @@ func shiftQuant(body, q, j string) (string, []string, bool) {
 			pats[nn.String()] = true
 			return nn
 		}
-		out := &sx{}
-		for _, k := range n.kids {
-			out.kids = append(out.kids, walk(k))
-		}
-		return out
+		return n
 	}
 	nb := walk(root)
+	if ok && off == "" && len(bare) > 0 {
+		// only reads at the bare variable: keep the body, name the reads as patterns
+		var ren func(n *sx) *sx
+		ren = func(n *sx) *sx {
+			if n.kids == nil {
+				if n.atom == q {
+					return atomSx(j)
+				}
+				return n
+			}
+			out := &sx{}
+			for _, k := range n.kids {
+				out.kids = append(out.kids, ren(k))
+			}
+			return out
+		}
+		var ps []string
+		for p := range bare {
+			ps = append(ps, ren(parseSx(p)).String())
+		}
+		sortStrings(ps)
+		return ren(nb).String(), ps, true
+	}
 	if !ok || off == "" {
 		return "", nil, false
 	}
